@@ -1428,8 +1428,9 @@ static int parse_loop(struct scanner_s *scanner, cif_container_tp *container) {
                             scanner->skip_depth = 2;
                             break;
                         case CIF_TRAVERSE_END:
+                        default:
+                            /* stop, forwarding the handler's error code (if that's what it is) */
                             goto loop_body_end;
-                        /* default: do nothing */
                     }
                 }  /* else loop == NULL from its initialization */
 
@@ -1631,9 +1632,12 @@ static int parse_loop_packets(struct scanner_s *scanner, cif_loop_tp *loop, stri
                                         case CIF_TRAVERSE_SKIP_SIBLINGS:
                                             scanner->skip_depth = 2;
                                             break;
+                                        case CIF_TRAVERSE_CONTINUE:
+                                            break;
                                         case CIF_TRAVERSE_END:
+                                        default:
+                                            /* stop, forwarding the handler's error code (if that's what it is) */
                                             goto packets_end;
-                                        /* default: do nothing */
                                     }
                                 }
                             }
